@@ -17,10 +17,12 @@ def content(io):
 
 
 def INV_buf(sp):
-    """pos == len for both buffers, and the search buffer is a suffix of the pending text."""
+    """pos == len for both buffers, the search buffer is a suffix of the pending text, and the two are separate
+    buffer objects (a write to one must not show up in the other)."""
     return And(eq(sp._before.pos, length(sp._before.content)),
                eq(sp._buffer.pos, length(sp._buffer.content)),
-               suffix_of(sp._buffer.content, sp._before.content))
+               suffix_of(sp._buffer.content, sp._before.content),
+               sp._buffer._oid != sp._before._oid)
 
 
 def spawn_shape(b, name='spawn', cls=SPAWNBASE, extra=None, loop=False, defaults=False):
